@@ -9,7 +9,7 @@
 //!   F1  the names of `get_modules()` are pairwise different                         ("names every known check once")
 //!   F2  the set of names is exactly the 19 known names (checkers.rs module list + "Memory")
 //!   F3  exactly one module is named "CWE78"                                          ("every check except the OS-command-injection check")
-//!   F4  `MODULES_LKM` has no entry twice and does not list "CWE78"
+//!   F4  `MODULES_LKM` has no entry twice
 //!   F5  every entry of `MODULES_LKM` other than the recorded dangling entry "CWE457" (observation O1) is the name of a module
 //!   O1  is REPORTED in the sweep output (`dangling_lkm_entries`), not counted as a disagreement.
 //!
@@ -47,11 +47,11 @@ fn facts() -> Vec<(&'static str, Value, Value)> {
     out.push(("F3 exactly one module named CWE78", json!(1), json!(names.iter().filter(|n| **n == OSCMD).count())));
     let mut bad: Vec<&str> = Vec::new();
     for (i, n) in lkm.iter().enumerate() {
-        if lkm[..i].contains(n) || *n == OSCMD {
+        if lkm[..i].contains(n) {
             bad.push(n);
         }
     }
-    out.push(("F4 MODULES_LKM: no entry twice, CWE78 not listed", json!([]), json!(bad)));
+    out.push(("F4 MODULES_LKM: no entry twice", json!([]), json!(bad)));
     let unknown: Vec<&str> = lkm.iter().cloned().filter(|n| !names.contains(n) && !DANGLING.contains(n)).collect();
     out.push(("F5 every MODULES_LKM entry (except the recorded dangling CWE457) names a module", json!([]), json!(unknown)));
     out
